@@ -225,6 +225,9 @@ func (g *Gen) Weaken(t sema.Type) sema.Type { return g.weaken(t, true) }
 
 func (g *Gen) weaken(t sema.Type, root bool) sema.Type {
 	s := g.S
+	if t == sema.AnyType {
+		return t // `Any` is a root-only top: never wrapped
+	}
 	top := func() sema.Type {
 		if root && s.Intn(4) == 0 {
 			return sema.AnyType // `Any` is only ever used as a root
@@ -275,8 +278,16 @@ func (g *Gen) weaken(t sema.Type, root bool) sema.Type {
 		return sema.NewCapabilityType(nil, g.weaken(t.BorrowType, false))
 	case *sema.InclusiveRangeType:
 		if t.MemberType != nil {
-			if ps := numberParents(t.MemberType); len(ps) > 0 {
-				return sema.NewInclusiveRangeType(nil, pickT(s, ps))
+			// the type parameter is bounded by Integer: only integer classes are denotable
+			var ips []sema.Type
+			for _, p := range numberParents(t.MemberType) {
+				switch p {
+				case sema.IntegerType, sema.SignedIntegerType, sema.FixedSizeUnsignedIntegerType:
+					ips = append(ips, p)
+				}
+			}
+			if len(ips) > 0 {
+				return sema.NewInclusiveRangeType(nil, pickT(s, ips))
 			}
 		}
 		return top()
